@@ -20,7 +20,7 @@ ID = "C14"
 LEVEL = "model_checking"
 RULE = (
     "all contingency tables CT(3,1,2), CT(2,2,2), CT(4,1,1) (thorough: CT(3,2,2), CT(4,2,1)) x {IoU,Dice}; all predictions of G1(6,3) x 10 fixed references and "
-    "G2(2,3,3) x 8 fixed references (thorough: G1(7,3) x 12) x ASSD; x every threshold class. non-trivial = some reference overlaps >= 2 predictions; "
+    "G2(2,3,3) x 8 fixed references (thorough: G1(7,3) x 12) x ASSD; x every threshold class; histories: every 16th (thorough: every 2nd) prediction of G1(6,3) / G2(2,3,3) x 1 (thorough: 2) partner reference per reference x one of (thorough: each of) {IoU,Dice,ASSD} x threshold classes: one matcher object matches sample A, sample B of the same shape, sample A again. non-trivial = some reference overlaps >= 2 predictions; "
     "distinct by overlap structure / array pair"
 )
 ASSUMPTIONS = [
@@ -48,6 +48,12 @@ def blocks(tier):
         n = sc.grid_count(shape, k)
         for lo, hi in sc.ranges(n, 32):
             B.append(("geo", name, shape, k, lo, hi))
+    # histories: one matcher object is used on a sequence of samples of the same shape (as Panoptica_Evaluator does)
+    for name, shape, k in geo[:2]:
+        n = sc.grid_count(shape, k)
+        step = 16 if tier == "quick" else 2
+        for lo, hi in sc.ranges(n // step, 12):
+            B.append(("reuse", name, shape, k, step, lo, hi))
     return B
 
 
@@ -56,6 +62,15 @@ def _refs(name):
 
 
 def run_block(block, acc):
+    if block[0] == "reuse":
+        _, name, shape, k, step, lo, hi = block
+        nr = len(_refs(name))
+        for q in range(lo, hi):
+            for a in range(nr):
+                for b in ((a + 1) % nr, (a + 3) % nr)[: 1 if step > 2 else 2]:
+                    for metric in ("IOU", "DSC", "ASSD") if step <= 2 else (("IOU", "DSC", "ASSD")[(q + a) % 3],):
+                        run_case({"kind": "reuse", "refs": name, "shape": list(shape), "k": k, "pi": q * step + (1 if step > 1 else 0), "ra": a, "rb": b, "metric": metric}, acc)
+        return
     if block[0] == "ct":
         _, P, R, c, lo, hi = block
         for i in range(lo, hi):
@@ -158,7 +173,62 @@ def judge_merge(acc, case, tag, rp, plabs, rlabs, asg, metric, thr, sigp="C14"):
     return ok, groups
 
 
+def _reuse_case(case, acc):
+    """the same matcher object matches sample A, sample B (same shape, same labels, different geometry), sample A again; every
+    result must pass the checker for its own sample"""
+    shape, k, metric = tuple(case["shape"]), case["k"], case["metric"]
+    n = sc.grid_count(shape, k)
+    acc.case("reuse", case["refs"], case["pi"], case["ra"], case["rb"], metric)
+    samples = []
+    for pi, rj in ((case["pi"], case["ra"]), ((case["pi"] * 7 + 3) % n, case["rb"])):
+        pred, ref = sc.grid(pi, shape, k), np.array(_refs(case["refs"])[rj], dtype=np.uint8)
+        pv, rv = rm.voxsets(pred), rm.voxsets(ref)
+        if not pv or not rv:
+            continue
+        plabs, rlabs = sorted(pv), sorted(rv)
+        samples.append(dict(pred=pred, ref=ref, plabs=plabs, rlabs=rlabs, rp=rm.RefPair([pv[l] for l in plabs], [rv[l] for l in rlabs])))
+    if len(samples) < 2:
+        acc.count("skipped_empty_side")
+        return
+    keeps = [thresholds_for(S["rp"], metric, None, shape=S["pred"].shape) for S in samples]
+    thrs = []
+    for t in sorted(set(keeps[0]) | set(keeps[1])):
+        okt = True
+        for S, keep in zip(samples, keeps):
+            if t not in keep and any(rm.close(t, S["rp"].score(metric, p, r)) for p, r in S["rp"].cands):
+                okt = False
+        if okt:
+            thrs.append(t)
+    acc.nontriv("reuse", case["refs"], case["pi"], case["ra"], case["rb"], metric)
+    for thr in thrs:
+        try:
+            M = make_matcher(["merge", metric, thr])
+        except Exception as e:
+            acc.violation(f"C14:reuse:raised:{type(e).__name__}", {**case, "thr": thr}, f"matcher construction raised {e!r}")
+            continue
+        for use, S in enumerate((samples[0], samples[1], samples[0])):
+            c2 = {**case, "thr": thr, "use": use}
+            tag = f"merge {metric} thr={thr}, use {use} of one matcher object (pred={S['pred'].tolist()}, ref={S['ref'].tolist()})"
+            acc.step()
+            try:
+                out = M.match_instances(UnmatchedInstancePair(S["pred"].copy(), S["ref"].copy()))
+            except Exception as e:
+                acc.violation(f"C14:reuse:raised:{type(e).__name__}", c2, f"{tag}: match_instances raised {e!r}")
+                continue
+            acc.state("reuse", out.prediction_arr, out.reference_arr, metric, thr)
+            asg, split = read_assignment(S["pred"], S["ref"], out.prediction_arr, set(S["rlabs"]))
+            if split:
+                acc.violation("C14:reuse:prediction_split", c2, f"{tag}: predictions {split} carry more than one label after matching")
+                continue
+            ok, groups = judge_merge(acc, c2, tag, S["rp"], S["plabs"], S["rlabs"], asg, metric, thr, sigp="C14:reuse")
+            acc.outcome(sorted((r, tuple(sorted(m))) for r, m in groups.items()))
+            if ok:
+                acc.ok()
+
+
 def run_case(case, acc):
+    if case["kind"] == "reuse":
+        return _reuse_case(case, acc)
     pred, ref = arrays_of(case)
     metric = case["metric"]
     acc.case(case["kind"], case.get("P"), case.get("R"), case.get("c"), case.get("i"), case.get("refs"), case.get("pi"), case.get("rj"), metric)
